@@ -18,7 +18,9 @@ TEX = ('Erste Zeile mit Fehlerr und Wört.\n'
        'Zweite $x$ Zeile \\textbf{noch} ein Worrt\\footnote{Fuß zeile}.\n'
        '\n'
        'Die Stra\\ss e und \\LaTeX{} hier, \\dots{} gut.\n'
-       'Dritter Absatz — Ende')
+       'Dritter Absatz — Ende\n'
+       'Zeile sechs steht hier.\nZeile sieben steht hier.\nZeile acht steht hier.\n'
+       'Zeile neun steht hier.\nZeile zehn und Schluss')
 LANG = 'de-DE'
 
 
@@ -97,6 +99,32 @@ def gen_faults(tier):
             b = set_path(base, ('matches', 0, 'offset'), o)
             b = set_path(b, ('matches', 0, 'length'), l)
             out.append(('pair:%d,%d' % (o, l), json.dumps(b).encode()))
+    # a long match over many lines with a short one inside it, both orders
+    for name, o, l in (('nested:all', 0, n - 1), ('nested:most', 0, plain.find('Zeile acht')),
+                       ('nested:tail', plain.find('Erste'), plain.find('Schluss') - plain.find('Erste'))):
+        b = set_path(base, ('matches', 0, 'offset'), o)
+        b = set_path(b, ('matches', 0, 'length'), l)
+        out.append((name, json.dumps(b).encode()))
+        b2 = json.loads(json.dumps(b))
+        b2['matches'] = b2['matches'][::-1]
+        out.append((name + ':swapped', json.dumps(b2).encode()))
+    # two messages for the same word (spelling rule and style rule): every
+    # fault in one of them while the other stays valid
+    tied = json.loads(json.dumps(base))
+    twin = json.loads(json.dumps(tied['matches'][1]))
+    twin['message'] = 'Stil: anderes Wort'
+    if isinstance(twin.get('rule'), dict):
+        twin['rule']['id'] = 'STYLE_RULE'
+    tied['matches'].append(twin)
+    out.append(('tied:valid', json.dumps(tied).encode()))
+    for p in paths(tied):
+        if p[:2] not in (('matches', 1), ('matches', 2)) or len(p) > 4:
+            continue
+        out.append(('tied:delete:%s' % '/'.join(map(str, p)),
+                    json.dumps(set_path(tied, p, None, delete=True)).encode()))
+        for s in (None, 0, [], {}, 'str'):
+            out.append(('tied:type:%s=%r' % ('/'.join(map(str, p)), s),
+                        json.dumps(set_path(tied, p, s)).encode()))
     # text fields holding what the HTML report uses as its own separators
     for path in (('matches', 0, 'message'), ('matches', 0, 'rule', 'urls', 0, 'value'),
                  ('matches', 0, 'replacements', 0, 'value'), ('matches', 0, 'rule', 'id'),
